@@ -1,8 +1,254 @@
-(* Props/C18.v — pinned statements for property C18 *)
-From RJ Require Import Base.Outcome Base.F64 Model.StrFns Proofs.StrFns_proofs.
-Local Open Scope N_scope.
+(* Props/C18.v — pinned statements for property C18 (strings are sequences of
+   Unicode code points in every string function).  Nothing here but statements
+   closed by [exact lemma], non-vacuity Examples, and [Print Assumptions].
 
-Theorem C18_length_counts_cps : forall s, std_length (VStr s) = Ok (VNum (f_of_N (N.of_nat (length s)))).
+   Strings are [list N] of code points; [occurs_at p s i] = "p occurs in s at
+   character index i"; [Split p s l] / [RSplit p s l] are the derivations of
+   Rust's str::split / rsplit (successive first / last matches), [split],
+   [splitn], [rsplitn] their fuelled executable forms used by the model. *)
+From RJ Require Import Base.Outcome Base.F64 Model.StrFns Proofs.StrFns_proofs.
+From Coq Require Import List Floats.SpecFloat.
+Import ListNotations.
+
+(* ---- counting ---- *)
+
+Theorem C18_length_counts_cps : forall s,
+  std_length (VStr s) = Ok (VNum (f_of_N (N.of_nat (length s)))).
 Proof. exact length_counts_cps. Qed.
 
+Theorem C18_utf8_len_ge_length : forall s, (N.of_nat (length s) <= utf8_len s)%N.
+Proof. exact utf8_len_ge_length. Qed.
+
+(* the byte length equals the character count only for pure-ASCII strings: any
+   byte-based shortcut shows as soon as one non-ASCII character is present *)
+Theorem C18_utf8_len_eq_length_iff_ascii : forall s,
+  utf8_len s = N.of_nat (length s) <-> Forall (fun c => (c < 128)%N) s.
+Proof. exact utf8_len_eq_length_iff_ascii. Qed.
+
+(* ---- index, substr, slice ---- *)
+
+Theorem C18_index_is_nth : forall s x i, try_to_usize_exact x = Some i ->
+  index_value (VStr s) (VNum x) =
+    match nth_error s (N.to_nat i) with
+    | Some c => Ok (VStr [c])
+    | None => Err ENumericIndexOutOfRange
+    end.
+Proof. exact index_is_nth. Qed.
+
+Theorem C18_index_rejected : forall s x, try_to_usize_exact x = None ->
+  index_value (VStr s) (VNum x) = Err ENumericIndexIsNotValid.
+Proof. exact index_rejected. Qed.
+
+Theorem C18_substr_slice_agree : forall s a l e v,
+  not_integer e = false -> f_neg_p e = false ->
+  sat_cast usize_max e = (sat_cast usize_max a + sat_cast usize_max l)%N ->
+  std_substr (VStr s) (VNum a) (VNum l) = Ok v ->
+  slice_expr (VStr s) (VNum a) (VNum e) VNull = Ok v.
+Proof. exact substr_slice_agree. Qed.
+
+Theorem C18_slice_is_skip_take_step : forall s a b c isf v, (lenN s <= usize_max)%N ->
+  do_slice (VStr s) a b c isf = Ok v ->
+  exists st en sp, get_slice_range (lenN s) a b c = Ok (st, en, sp) /\ (st <= en)%N /\ (1 <= sp)%N /\
+    v = VStr (step_by sp (firstn (N.to_nat (en - st)) (skipn (N.to_nat st) s))).
+Proof. exact slice_is_skip_take_step. Qed.
+
+Theorem C18_slice_no_panic : forall s a b c isf, (lenN s <= usize_max)%N ->
+  is_panic (do_slice (VStr s) a b c isf) = false.
+Proof. exact slice_no_panic. Qed.
+
+(* ---- split / join ---- *)
+
+Theorem C18_split_total : forall s sep, sep <> [] ->
+  exists l, StrFns.split s sep = Ok l /\ Split sep s l.
+Proof. exact split_total. Qed.
+
+Theorem C18_join_split : forall s sep l, sep <> [] ->
+  StrFns.split s sep = Ok l -> join sep l = s.
+Proof. exact join_split. Qed.
+
+Theorem C18_split_no_sep_inside : forall s sep l, sep <> [] -> StrFns.split s sep = Ok l ->
+  Forall (fun piece => forall i, occurs_at sep piece i = false) l.
+Proof. exact split_no_sep_inside. Qed.
+
+(* value level: std.join(c, std.split(s, c)) == s *)
+Theorem C18_std_join_split : forall s sep v, std_split (VStr s) (VStr sep) = Ok v ->
+  std_join (VStr sep) v = Ok (VStr s).
+Proof. exact std_join_split. Qed.
+
+(* ---- findSubstr: every and only match position, ascending ---- *)
+
+Theorem C18_findSubstr_sound_complete : forall pat s, pat <> [] ->
+  find_substr_cps pat s =
+    Ok (map N.of_nat (filter (occurs_at pat s) (seq 0 (length s)))).
+Proof. exact findSubstr_spec. Qed.
+
+Theorem C18_findSubstr_in : forall pat s l, pat <> [] -> find_substr_cps pat s = Ok l ->
+  forall k, In (N.of_nat k) l <-> ((k < length s)%nat /\ occurs_at pat s k = true).
+Proof. exact findSubstr_in. Qed.
+
+(* ---- strip ---- *)
+
+Theorem C18_strip_decomposes : forall cs s, exists a b, s = a ++ strip cs s ++ b /\
+  Forall (listed cs) a /\ Forall (listed cs) b /\
+  (strip cs s = [] \/
+   (exists c t, strip cs s = c :: t /\ memN c cs = false) /\
+   (exists t c, strip cs s = t ++ [c] /\ memN c cs = false)).
+Proof. exact strip_decomposes. Qed.
+
+Theorem C18_strip_maximal : forall cs s a' r' b' x m m' y,
+  s = a' ++ r' ++ b' -> r' = x :: m -> r' = m' ++ [y] ->
+  memN x cs = false -> memN y cs = false ->
+  exists u v, strip cs s = u ++ r' ++ v.
+Proof. exact strip_maximal. Qed.
+
+Theorem C18_lstrip_spec : forall cs s, exists a, s = a ++ lstrip cs s /\ Forall (listed cs) a /\
+  (lstrip cs s = [] \/ exists c t, lstrip cs s = c :: t /\ memN c cs = false).
+Proof. exact lstrip_spec. Qed.
+
+Theorem C18_rstrip_spec : forall cs s, exists b, s = rstrip cs s ++ b /\ Forall (listed cs) b /\
+  (rstrip cs s = [] \/ exists t c, rstrip cs s = t ++ [c] /\ memN c cs = false).
+Proof. exact rstrip_spec. Qed.
+
+(* ---- splitLimit / splitLimitR: the first / last n separators ---- *)
+
+Theorem C18_splitLimit_first_n : forall s sep ps k, sep <> [] -> StrFns.split s sep = Ok ps ->
+  split_limit_cps s sep (Some (N.of_nat (S k))) =
+    Ok (if (length ps <=? S k)%nat then ps else firstn k ps ++ [join sep (skipn k ps)]).
+Proof. exact splitLimit_first_n. Qed.
+
+(* [rs] = all pieces obtained from the right (last match first), listed right to left *)
+Theorem C18_splitLimitR_last_n : forall s sep rs k, sep <> [] -> RSplit sep s rs ->
+  split_limit_r_cps s sep (Some (N.of_nat (S k))) =
+    Ok (rev (if (length rs <=? S k)%nat then rs else firstn k rs ++ [join sep (rev (skipn k rs))])).
+Proof. exact splitLimitR_last_n. Qed.
+
+Theorem C18_rsplit_exists_clean : forall s sep, sep <> [] ->
+  exists rs, RSplit sep s rs /\ join sep (rev rs) = s /\
+             Forall (fun piece => forall i, occurs_at sep piece i = false) rs.
+Proof. exact rsplit_exists_clean. Qed.
+
+Theorem C18_splitLimit_join : forall s sep n l, sep <> [] -> (1 <= n)%N ->
+  split_limit_cps s sep (Some n) = Ok l -> join sep l = s.
+Proof. exact splitLimit_join. Qed.
+
+Theorem C18_splitLimitR_join : forall s sep n l, sep <> [] -> (1 <= n)%N ->
+  split_limit_r_cps s sep (Some n) = Ok l -> join sep l = s.
+Proof. exact splitLimitR_join. Qed.
+
+(* the limit decoded from the `maxsplits` double is never 0 pieces *)
+Theorem C18_decoded_limit_positive : forall m n,
+  (decode_maxsplits m = Ok (Some n) \/ decode_maxsplits_r m = Ok (Some n)) -> (1 <= n)%N.
+Proof. exact decoded_limit_positive. Qed.
+
+(* ---- replace, reverse, char/codepoint, stringChars, map ---- *)
+
+Theorem C18_strReplace_is_join_split : forall s from to l, from <> [] ->
+  StrFns.split s from = Ok l -> str_replace s from to = Ok (join to l).
+Proof. exact strReplace_is_join_split. Qed.
+
+Theorem C18_reverse_involutive : forall s l, std_reverse (VStr s) = Ok (VArr l) ->
+  std_reverse (VArr l) = Ok (VArr (string_chars s)).
+Proof. exact reverse_involutive. Qed.
+
+Theorem C18_char_codepoint_inverse : forall c, is_scalar c = true ->
+  std_char (VNum (f_of_N c)) = Ok (VStr [c]) /\
+  std_codepoint (VStr [c]) = Ok (VNum (f_of_N c)).
+Proof. exact char_codepoint_inverse. Qed.
+
+Theorem C18_char_rejects_non_scalar : forall c, (c < 0x110000)%N -> is_scalar c = false ->
+  std_char (VNum (f_of_N c)) = Err EOther.
+Proof. exact char_rejects_non_scalar. Qed.
+
+Theorem C18_codepoint_char_inverse : forall x v, std_char (VNum x) = Ok v ->
+  exists c, v = VStr [c] /\ is_scalar c = true /\ std_codepoint v = Ok (VNum (f_of_N c)).
+Proof. exact codepoint_char_inverse. Qed.
+
+Theorem C18_stringChars_join : forall s,
+  std_join (VStr []) (VArr (string_chars s)) = Ok (VStr s).
+Proof. exact stringChars_join. Qed.
+
+Theorem C18_map_length : forall f s l, map_str f s = Ok l ->
+  length l = length s /\
+  forall i c, nth_error s i = Some c -> exists v, nth_error l i = Some v /\ f [c] = Ok v.
+Proof. exact map_str_length. Qed.
+
+Theorem C18_flatMap_id : forall s, std_flat_map (VFun 0) (VStr s) = Ok (VStr s).
+Proof. exact flatMap_id. Qed.
+
+(* ---- non-vacuity: the hypotheses above are met by non-trivial values ---- *)
+
+(* "a𝄞é--b---c" split by "--": multi-byte characters before a self-overlapping separator *)
+Example C18_nonvacuous_split :
+  let s := [0x61; 0x1D11E; 0xE9; 0x2D; 0x2D; 0x62; 0x2D; 0x2D; 0x2D; 0x63]%N in
+  let sep := [0x2D; 0x2D]%N in
+  sep <> [] /\
+  StrFns.split s sep = Ok [[0x61; 0x1D11E; 0xE9]; [0x62]; [0x2D; 0x63]]%N /\
+  split_limit_cps s sep (Some 2%N) = Ok [[0x61; 0x1D11E; 0xE9]; [0x62; 0x2D; 0x2D; 0x2D; 0x63]]%N /\
+  split_limit_r_cps s sep (Some 2%N) = Ok [[0x61; 0x1D11E; 0xE9; 0x2D; 0x2D; 0x62; 0x2D]; [0x63]]%N /\
+  RSplit sep s [[0x63]; [0x62; 0x2D]; [0x61; 0x1D11E; 0xE9]]%N /\
+  find_substr_cps sep s = Ok [3; 6; 7]%N /\
+  utf8_len s = 14%N /\ length s = 10%nat.
+Proof.
+  repeat split; try reflexivity; try discriminate.
+  eapply RSplit_cons; [reflexivity|]. eapply RSplit_cons; [reflexivity|]. apply RSplit_last. reflexivity.
+Qed.
+
+(* index / substr / slice hypotheses: accepted doubles exist (5, 2^53, 2^64) and rejected ones (0.5, -1) *)
+Example C18_nonvacuous_numbers :
+  try_to_usize_exact (f_of_N 5) = Some 5%N /\
+  try_to_usize_exact (f_of_N (2 ^ 53)) = Some (2 ^ 53)%N /\
+  try_to_usize_exact (f_of_N (2 ^ 64)) = Some usize_max /\
+  try_to_usize_exact (f_of_Z_exp 1 (-1)) = None /\
+  try_to_usize_exact (f_of_Z (-1)) = None /\
+  (let s := [0x61; 0xE9; 0x1D11E; 0x62]%N in
+   not_integer (f_of_N 3) = false /\ f_neg_p (f_of_N 3) = false /\
+   sat_cast usize_max (f_of_N 3) = (sat_cast usize_max (f_of_N 1) + sat_cast usize_max (f_of_N 2))%N /\
+   std_substr (VStr s) (VNum (f_of_N 1)) (VNum (f_of_N 2)) = Ok (VStr [0xE9; 0x1D11E]%N) /\
+   do_slice (VStr s) (Some (f_of_Z (-3))) None (Some (f_of_N 2)) false = Ok (VStr [0xE9; 0x62]%N)) /\
+  decode_maxsplits (f_of_N 1) = Ok (Some 2%N) /\
+  decode_maxsplits_r (f_of_N (2 ^ 64)) = Ok (Some usize_max) /\
+  is_scalar 0x1D11E = true /\ is_scalar 0xD800 = false.
+Proof. vm_compute. repeat split; reflexivity. Qed.
+
+Example C18_nonvacuous_strip :
+  let s := [0x20; 0xE9; 0x61; 0xE9; 0x20; 0xE9]%N in      (* " éaé é" stripped of " é" *)
+  strip [0x20; 0xE9]%N s = [0x61]%N /\
+  s = [0x20; 0xE9]%N ++ [0x61]%N ++ [0xE9; 0x20; 0xE9]%N /\
+  memN 0x61 [0x20; 0xE9]%N = false.
+Proof. vm_compute. repeat split; reflexivity. Qed.
+
 Print Assumptions C18_length_counts_cps.
+Print Assumptions C18_utf8_len_ge_length.
+Print Assumptions C18_utf8_len_eq_length_iff_ascii.
+Print Assumptions C18_index_is_nth.
+Print Assumptions C18_index_rejected.
+Print Assumptions C18_substr_slice_agree.
+Print Assumptions C18_slice_is_skip_take_step.
+Print Assumptions C18_slice_no_panic.
+Print Assumptions C18_split_total.
+Print Assumptions C18_join_split.
+Print Assumptions C18_split_no_sep_inside.
+Print Assumptions C18_std_join_split.
+Print Assumptions C18_findSubstr_sound_complete.
+Print Assumptions C18_findSubstr_in.
+Print Assumptions C18_strip_decomposes.
+Print Assumptions C18_strip_maximal.
+Print Assumptions C18_lstrip_spec.
+Print Assumptions C18_rstrip_spec.
+Print Assumptions C18_splitLimit_first_n.
+Print Assumptions C18_splitLimitR_last_n.
+Print Assumptions C18_rsplit_exists_clean.
+Print Assumptions C18_splitLimit_join.
+Print Assumptions C18_splitLimitR_join.
+Print Assumptions C18_decoded_limit_positive.
+Print Assumptions C18_strReplace_is_join_split.
+Print Assumptions C18_reverse_involutive.
+Print Assumptions C18_char_codepoint_inverse.
+Print Assumptions C18_char_rejects_non_scalar.
+Print Assumptions C18_codepoint_char_inverse.
+Print Assumptions C18_stringChars_join.
+Print Assumptions C18_map_length.
+Print Assumptions C18_flatMap_id.
+Print Assumptions C18_nonvacuous_split.
+Print Assumptions C18_nonvacuous_numbers.
+Print Assumptions C18_nonvacuous_strip.
